@@ -229,11 +229,7 @@ impl Finding {
         if self.prop != prop {
             return false;
         }
-        if let Some(p) = self.cell.strip_suffix('*') {
-            cell.starts_with(p)
-        } else {
-            self.cell == cell
-        }
+        glob(&self.cell, cell)
     }
     fn contains(&self, key: u128) -> bool {
         if self.whole_cell {
@@ -243,6 +239,31 @@ impl Finding {
         let i = r.partition_point(|&(_, hi)| hi < key);
         i < r.len() && r[i].0 <= key
     }
+}
+
+/// `*` matches any run of characters (cell patterns like `PxE1<*>/from_i32*`)
+pub fn glob(pat: &str, s: &str) -> bool {
+    if !pat.contains('*') {
+        return pat == s;
+    }
+    let parts: Vec<&str> = pat.split('*').collect();
+    let mut pos = 0usize;
+    for (i, part) in parts.iter().enumerate() {
+        if i == 0 {
+            if !s.starts_with(part) {
+                return false;
+            }
+            pos = part.len();
+        } else if i == parts.len() - 1 {
+            return s.len() >= pos + part.len() && s[pos..].ends_with(part);
+        } else {
+            match s[pos..].find(part) {
+                Some(j) => pos += j + part.len(),
+                None => return false,
+            }
+        }
+    }
+    true
 }
 
 fn parse_u128(s: &str) -> u128 {
